@@ -64,7 +64,7 @@ pub open spec fn tmp_ok(w: World, factory: Seq<char>, infos: [AssetInfo; 2], t: 
         /*[C14,C16 create.frame]*/ final(deps.storage).config == old(deps.storage).config && final(deps.storage).pairs@ == old(deps.storage).pairs@ && final(deps.storage).allow@ == old(deps.storage).allow@,
         /*[C07,C16 create.only-instantiate]*/ r is Ok ==> r->Ok_0.messages@.len() == 1 && r->Ok_0.messages@[0].reply_on == ReplyOn::Success
             && (r->Ok_0.messages@[0].msg matches CosmosMsg::Wasm(WasmMsg::Instantiate { admin, code_id, msg, funds, label }) && code_id == old(deps.storage).config->Some_0.pair_code_id && funds@.len() == 0),
-        /*[C16,C17,C05,C10 create.pair-told-recorded-values]*/ r is Ok ==> (r->Ok_0.messages@[0].msg matches CosmosMsg::Wasm(WasmMsg::Instantiate { admin, code_id, msg, funds, label }) &&
+        /*[C16,C17,C05,C10,C06 create.pair-told-recorded-values]*/ r is Ok ==> (r->Ok_0.messages@[0].msg matches CosmosMsg::Wasm(WasmMsg::Instantiate { admin, code_id, msg, funds, label }) &&
             msg == bin_of(PairInstantiateMsg { asset_infos, token_code_id: old(deps.storage).config->Some_0.token_code_id, asset_decimals: final(deps.storage).tmp->Some_0.asset_decimals, requirements,
                 commission_rate: rate_or_default(commission_rate),
                 lp_token_info: LPTokenInfo { lp_token_name: lp_token_info.lp_token_name, lp_token_symbol: lp_token_info.lp_token_symbol, lp_token_decimals: lp_token_info.lp_token_decimals } })),
@@ -239,7 +239,7 @@ pub proof fn lemma_registry_wf_after_update(p: Map<Seq<u8>, PairInfoRaw>, q: Map
             !asset_infos[0].same(&asset_infos[1]) && (commission_rate is Some ==> commission_rate->Some_0.0.v() <= dd())
             && final(deps.storage).tmp is Some && !old(deps.storage).pairs@.dom().contains(final(deps.storage).tmp->Some_0.pair_key@)
             && tmp_ok(deps.querier.world(), env.contract.address.0@, asset_infos, final(deps.storage).tmp->Some_0),
-        /*[C16,C17,C05,C10 fexec.create.pair-told-recorded-values]*/ msg matches ExecuteMsg::CreatePair { asset_infos, requirements, commission_rate, lp_token_info } ==> r is Ok ==>
+        /*[C16,C17,C05,C10,C06 fexec.create.pair-told-recorded-values]*/ msg matches ExecuteMsg::CreatePair { asset_infos, requirements, commission_rate, lp_token_info } ==> r is Ok ==>
             r->Ok_0.messages@.len() == 1 && (r->Ok_0.messages@[0].msg matches CosmosMsg::Wasm(WasmMsg::Instantiate { admin, code_id, msg, funds, label }) && funds@.len() == 0 &&
             msg == bin_of(PairInstantiateMsg { asset_infos, token_code_id: old(deps.storage).config->Some_0.token_code_id, asset_decimals: final(deps.storage).tmp->Some_0.asset_decimals, requirements,
                 commission_rate: rate_or_default(commission_rate),
